@@ -108,7 +108,7 @@ Proof.
         pose proof (cstep_tau _ _ _ _ _ _ _ _ E) as Ht. apply cstep_rd in E. destruct E as (_ & _ & Et & _ & E & _).
         intros H; inversion H; subst. apply Hset; cbn in *; rewrite ?E; try lia; try tauto.
       * destruct o; intros H; inversion H; subst; apply Hset; try reflexivity; cbn; lia.
-    + destruct (locked s); [discriminate|]. destruct src; intros H; inversion H; subst; apply Hset; try reflexivity; cbn; lia.
+    + destruct (locked s); [discriminate|]. destruct src; [destruct (is_nil (s_senders s))|]; intros H; inversion H; subst; apply Hset; try reflexivity; cbn; lia.
     + destruct (x_inbox x) eqn:E; [destruct (closed (x_chan x) s); [|discriminate]|]; intros H; inversion H; subst; apply Hset; try reflexivity; cbn; rewrite ?E; cbn; lia.
     + discriminate.
     + discriminate.
